@@ -27,7 +27,7 @@ pub enum Status {
 pub struct TState {
     pub status: Status,
     pub pending: Option<Pending>,
-    pub inject: shim::Inject,
+    pub inject: Cell<shim::Inject>,
     /// request to run nested logical thread `n` on this OS thread (set by the controller)
     pub nest: Option<usize>,
     /// this logical thread is a nested delivery hosted by that thread
@@ -51,6 +51,10 @@ pub struct Inner {
     pub abort: bool,
     /// body of nested logical threads (called with the nested thread's id)
     pub nest_fn: Option<fn(usize)>,
+    /// called by the controller after every step (all threads parked) with the thread that moved;
+    /// returns extra observation lines (e.g. memory that changed during the step)
+    pub observer: Option<Box<dyn FnMut(usize) -> Vec<String> + Send>>,
+    pub last_granted: Option<usize>,
     pub extra_enabled: Option<Box<dyn Fn(&Inner, usize, &Pending) -> bool + Send>>,
 }
 
@@ -126,6 +130,8 @@ pub fn install(sites: HashMap<(String, u32), String>) -> Arc<Sched> {
             sites,
             abort: false,
             nest_fn: None,
+            observer: None,
+            last_granted: None,
             extra_enabled: None,
         }),
         cv: Condvar::new(),
@@ -249,7 +255,7 @@ fn hook_post(e: &shim::Event, result: u64, ok: bool) {
         }
         shim::Op::Yield => "yield".to_string(),
         shim::Op::Spin => "spin".to_string(),
-        shim::Op::CellAccess => format!("cell {} @{}", loc, site),
+        shim::Op::CellAccess => format!("cell {}", loc),
         shim::Op::Alloc => { let id = g.snap_id(e.addr); format!("alloc {}", id) }
         shim::Op::Free => {
             let id = g.snap_id(e.addr);
@@ -310,8 +316,8 @@ impl Sched {
                 }
                 g.threads[tid].status = Status::Running;
                 g.threads[tid].pending = None;
-                let inj = g.threads[tid].inject;
-                g.threads[tid].inject = shim::Inject::None;
+                let inj = g.threads[tid].inject.get();
+                g.threads[tid].inject.set(shim::Inject::None);
                 return inj;
             }
             g = self.cv.wait(g).unwrap();
@@ -326,7 +332,7 @@ impl Sched {
 
     pub fn add_thread(&self) -> usize {
         let mut g = self.inner.lock().unwrap();
-        g.threads.push(TState { status: Status::NotStarted, pending: None, inject: shim::Inject::None, nest: None, host: None, hosting: None, own_steps: 0 });
+        g.threads.push(TState { status: Status::NotStarted, pending: None, inject: Cell::new(shim::Inject::None), nest: None, host: None, hosting: None, own_steps: 0 });
         g.threads.len() - 1
     }
 
@@ -399,6 +405,15 @@ impl Sched {
             while g.granted.is_some() || g.threads.iter().any(|t| t.status == Status::Running) {
                 g = self.cv.wait(g).unwrap();
             }
+            if let Some(last) = g.last_granted.take() {
+                if let Some(mut obs) = g.observer.take() {
+                    let lines = obs(last);
+                    for l in lines {
+                        g.log.push(l);
+                    }
+                    g.observer = Some(obs);
+                }
+            }
             if g.threads.iter().all(|t| t.status == Status::Done || (t.status == Status::NotStarted && t.host.is_some() && g.threads[t.host.unwrap()].status == Status::Done)) {
                 return "done";
             }
@@ -425,6 +440,7 @@ impl Sched {
             if !is_start {
                 g.schedule.push(tid);
                 step += 1;
+                g.last_granted = Some(tid);
             }
             g.granted = Some(tid);
             self.cv.notify_all();
